@@ -85,6 +85,11 @@ def cmd_run(seed_id, checks):
     rc, out = sh("git -C /repo status --porcelain")
     assert out.strip() == "", "/repo is not clean"
     res = meta.setdefault("check_results", {})
+    # evidence files must always describe the unchanged tree: keep the current ones aside
+    ev_dir = os.path.join(ROOT, "evidence")
+    ev_bak = tempfile.mkdtemp(prefix="evidence-bak-")
+    for f in os.listdir(ev_dir):
+        shutil.copy(os.path.join(ev_dir, f), ev_bak)
     try:
         rc, out = sh(f"git -C /repo apply {os.path.join(d, 'patch.diff')}")
         assert rc == 0, out
@@ -97,6 +102,9 @@ def cmd_run(seed_id, checks):
             print(f"{seed_id} {c}: exit={rc} {first[:160]}")
     finally:
         sh("git -C /repo checkout -- .")
+        for f in os.listdir(ev_bak):
+            shutil.copy(os.path.join(ev_bak, f), ev_dir)
+        shutil.rmtree(ev_bak)
     meta["caught_by"] = sorted(c for c, r in res.items() if r["exit"] == 1)
     json.dump(meta, open(os.path.join(d, "meta.json"), "w"), indent=1)
     # restore evidence of the checks we ran to the clean-tree state later (the caller re-runs them)
